@@ -21,7 +21,8 @@ type Term struct {
 	nv int
 	v1 *Term
 	// solver-side cache (one solver per process)
-	smt string
+	smt    string
+	smtGen int
 }
 
 type tkey struct {
